@@ -87,7 +87,10 @@ func errSwallowRule(c *Ctx, r *Report, rule string, floor int, sel func(fn *ssa.
 			}
 			cons := ordinal(ord, fmt.Sprintf("%s / error %s", fnKey(fn), desc))
 			spec, listed := table[cons]
-			p := reachFromBlockStart(fn, succ, isNilErrReturn, spec.Guards, nil)
+			// start at the test itself with its nil edge barred, so that the search knows the error is non-nil (it may be merged into a result that is tested again)
+			_ = succ
+			nilEdge := Guard{Name: "this error == nil", Truthy: false, Match: func(b ssa.Value) bool { return b == base }}
+			p := reachFromBlockStart(fn, ifi.Block(), isNilErrReturn, append(append([]Guard{}, spec.Guards...), nilEdge), nil)
 			if p == nil {
 				if listed && len(spec.Guards) == 0 {
 					used[cons] = true
